@@ -254,6 +254,11 @@ SoundRet(r) ==
                                     /\ NormR(TxRuns) = NormR(<<<<call.first, call.n>>>>)
                                     /\ r.ok
                                ELSE ErrOf(r) = "IoError"
+                            \* a blocking transfer returns - with success or with the error - only
+                            \* when the device owns none of its chunks any more (they point at the
+                            \* caller's frames and at the function's own status buffers); with a
+                            \* device completing out of order this is known finding D11
+                            /\ ~ccfg.ooo => txOut = 0
                [] call.op = "pcm_xfer_nb" ->
                     /\ rest = <<>> /\ U(params)
                     /\ IF ~params[call.stream].setup THEN ErrOf(r) = "IoError"
